@@ -17,6 +17,14 @@ def make_job(rng, idx, quick):
     # per-channel calls) and 1-4 channels: counts, totals and delay do not depend on them
     dt = rng.chance(.35)
     cfg, env = cr.gen_config(rng, rates=GRID[idx] if idx < len(GRID) else None, datatypes=dt, channels=dt)
+    if idx >= len(GRID) and rng.chance(.04):
+        # decimation beyond the 8192-frame input block of a stage (the cubic stage's hold-back and read advance are then larger than
+        # what one invocation may take): SOXR_QQ has no planner in front of it, so any factor reaches the stage
+        f = rng.choice([8192, 8193, 10000, 10000.7, 16385, 50000.5, 100007 / 10.0])
+        cfg = {"ir": repr(float(f)), "or": "1", "recipe": 0, "qflags": rng.choice([0, 8])}
+        env = {}
+        N = int(f * rng.choice([2.7, 5.4, 27, 54.3])) + rng.below(3)
+        return {"cfg": cfg, "env": env, "N": N, "seed": rng.next() & 0xffffffff, "idx": idx, "blocks": int(f * rng.choice([.09, .9, 1.0, 3]))}
     N = rng.choice([0, 1, 2, 3, 17, 100, 1000, 4096, 30000]) if rng.chance(.5) else rng.below(60000 if quick else 400000)
     cap = 250000 if quick else 3000000          # keep the output stream of one job bounded
     N = min(N, int(cap * max(1.0, cr.io_ratio(cfg))), int(cap * cr.io_ratio(cfg)) + 3)
@@ -34,6 +42,10 @@ def job_ops(job, plan):
     style = rng.below(4)
     cap = [10 ** 9, 60, 3000, 10 ** 9][style]
     ncalls = rng.choice([3, 10, 40, 150])
+    if job.get("blocks"):        # huge decimation: blocks of about one output period, little output room
+        for i in range(min(80, job["N"] // max(1, job["blocks"]) + 2)):
+            ops.append("feed %d %d %d" % (job["blocks"], rng.choice([8, 1, 100]), 0))
+        ncalls = 0
     for i in range(ncalls):
         il = min(rng.choice(sizes) if rng.chance(.6) else rng.below(3000), cap)
         ol = min(rng.choice(sizes) if rng.chance(.6) else rng.below(3000), cap)
@@ -108,6 +120,37 @@ def run(ctx):
         ctx.hist("dist_N_digits", len(str(job["N"])))
         if info.get("near_tie"):
             ctx.count("near_ties")
+    # ---- soxr_oneshot as soxr.h allows it: no idone pointer, the output buffer exactly round(N*orate/irate) frames long (what
+    #      examples/1-single-block.c sizes it to): all N frames are the input, the whole total must come out of the one call
+    def one_job(i):
+        r = common.Rng(ctx.rng.next())
+        cfg, env = cr.gen_config(r, rates=GRID[r.below(len(GRID))] if r.chance(.6) else None, allow_nonlinear=False, max_up=40, max_down=400)
+        N = r.choice([1, 2, 9, 10, 11, 100, 4412, 44101, 48007]) if r.chance(.5) else 1 + r.below(60000)
+        N = min(N, int(200000 * max(1.0, cr.io_ratio(cfg))), int(200000 * cr.io_ratio(cfg)) + 3)
+        return {"cfg": cfg, "env": env, "N": max(1, N)}
+
+    def one_work(job):
+        exp, near = cr.owed_exact(job["N"], job["cfg"])
+        ops = [cr.create_line(job["cfg"]), "limit %d" % job["N"], "oneshot %d %d 0" % (job["N"], exp)]
+        return job, ops, exp, near, cr.run_trace(exe, ops, job["env"], timeout=120)
+    none = 0
+    for job, ops, exp, near, tr in cr.pmap(one_work, [one_job(i) for i in range(150 if ctx.quick else 4000)]):
+        if not tr.created:
+            continue
+        ctx.count("oneshot_exact_buffer_runs")
+        h1 = [l for l in tr.lines if l.startswith("H1 ")]
+        if tr.rc != 0 or not h1:
+            ctx.violation("C03 fails on the real code: soxr_oneshot without idone, exact output buffer: harness exit %s %s (%s %s)" % (tr.rc, tr.err[-300:], cr.create_line(job["cfg"]), job["env"]),
+                          {"cfg": job["cfg"], "env": job["env"], "ops": ops}); continue
+        kv = cr.parse_kv(h1[-1])
+        got = int(kv["out"])
+        exp_c = int(job["N"] / cr.io_ratio(job["cfg"]) + .5)
+        if kv.get("err", "-") != "-" or (got != exp and not (near and got == exp_c)):
+            if [k for k in cr.classify_known(tr.plan, job["cfg"]) if k in {f["id"] for f in common.known_active(PID)}]:
+                continue
+            ctx.violation("C03 fails on the real code: soxr_oneshot(N = %d frames, idone = NULL, output buffer of exactly round(N*orate/irate) = %d frames) delivered %d "
+                          "frames (error %s) (%s %s)" % (job["N"], exp, got, kv.get("err"), cr.create_line(job["cfg"]), job["env"]),
+                          {"cfg": job["cfg"], "env": job["env"], "ops": ops, "delivered": got, "expected": exp})
     # ---- the decidable hypotheses of never_early / never_early_round (PlanLatOK false, PlanEarlyOK, StageWF, post-context >= half an
     #      output period), evaluated by the Lean driver on every exported plan.  Linear-phase plans must satisfy them; for a
     #      non-linear phase setting the theorem does not apply (the filter is not centred) and the oracle above alone speaks.
